@@ -686,7 +686,7 @@ func main() {
 	}
 	if *tier == "thorough" {
 		// the thorough tier also proves the harness deterministic (exit 2 on any mismatch)
-		selftest(bin, baseEnv, tmpDir, id, seed, 32)
+		selftest(bin, baseEnv, tmpDir, id, seed, 16)
 	}
 	fmt.Printf("OK property=%s held on everything explored\n", id)
 }
